@@ -26,13 +26,20 @@ HERE = Path(__file__).resolve().parent
 VERIF = HERE.parent
 
 
+class NonFinite(ValueError):
+    """a number produced by the real code is NaN or infinite (cannot be shipped to the model as a rational)"""
+
+
 def frac(x) -> str:
     """Exact rational text of a python/numpy float or int (`num/den`)."""
     if isinstance(x, bool):
         return "1" if x else "0"
     if isinstance(x, int):
         return str(x)
-    f = Fraction(float(x))
+    xf = float(x)
+    if xf != xf or xf in (float("inf"), float("-inf")):
+        raise NonFinite(f"non-finite value {xf!r}")
+    f = Fraction(xf)
     return str(f.numerator) if f.denominator == 1 else f"{f.numerator}/{f.denominator}"
 
 
@@ -118,6 +125,10 @@ def main(prop, gen, run, *, driver, rule, trusted_base=(), assumptions=(), spec=
         base_kind = kind.split(":", 1)[1] if kind.startswith(("corpus:", "replay:")) else kind
         try:
             res = run(dict(inp, kind=base_kind))
+        except NonFinite as e:
+            # the implementation handed back NaN/inf where a number was expected: that is an observation about the code
+            res = {"req": None, "impl": None, "kind": kind + "-nonfinite", "sig": f"nonfinite:{base_kind}",
+                   "oracle": {"ok": False, "detail": f"the real code produced a {e} on input {str(inp)[:300]}"}}
         except Exception:  # a crash of the harness is not a verdict about the code
             sys.stderr.write(f"harness error on input {inp!r}\n{traceback.format_exc()}\n")
             sys.exit(3)
